@@ -13,7 +13,7 @@
 EXTENDS Integers, Sequences, FiniteSets, TLC, Json
 
 StrangerClasses ==
-  { "s-ledgerprop-ok", "s-subprop-unknown", "s-subprop-foreign", "s-virtprop-noparents", "s-virtprop-foreign",
+  { "s-ledgerprop-ok", "s-subprop-unknown", "s-subprop-foreign", "s-virtprop-noparents", "s-virtprop-oneparent", "s-virtprop-foreign",
     "s-update-unknown", "s-update-known-badsig", "s-acc-unknown", "s-rej-unknown", "s-acc-known-future",
     "s-sync-empty", "s-sync-known", "s-propacc-unknown", "s-proprej-unknown",
     "s-ping", "s-pong", "s-shutdown", "s-authresponse", "s-vfund-unknown", "s-vsettle-unknown",
